@@ -98,6 +98,13 @@ Fixpoint peekArgStr (h : list argsKV) (k : bytes) : option bytes :=
   | kv :: r => if beq (kv_key kv) k then Some (kv_value kv) else peekArgStr r k
   end.
 
+(* func peekArgBytes(h []argsKV, k []byte) []byte — the bytes.Equal twin used by PeekBytes *)
+Fixpoint peekArgBytes (h : list argsKV) (k : bytes) : option bytes :=
+  match h with
+  | [] => None
+  | kv :: r => if beq (kv_key kv) k then Some (kv_value kv) else peekArgBytes r k
+  end.
+
 (* func (a *Args) PeekMulti(key string) [][]byte — range over a.All() *)
 Fixpoint PeekMulti_loop (h : list argsKV) (key : bytes) (values : list bytes) : list bytes :=
   match h with
@@ -108,6 +115,7 @@ Fixpoint PeekMulti_loop (h : list argsKV) (key : bytes) (values : list bytes) : 
 Definition PeekMulti (a : args) (key : bytes) : list bytes := PeekMulti_loop (live a) key [].
 
 Definition Peek (a : args) (key : bytes) : option bytes := peekArgStr (live a) key.
+Definition PeekBytes (a : args) (key : bytes) : option bytes := peekArgBytes (live a) key.
 Definition Has (a : args) (key : bytes) : bool := hasArg (live a) key.
 Definition Len (a : args) : Z := Z.of_nat (length (live a)).
 (* func (a *Args) All(): the sequence of yielded (key, value) pairs *)
@@ -119,6 +127,38 @@ Definition AddNoValue (a : args) (k : bytes) : args := appendArg a k [] argsNoVa
 Definition Set_ (a : args) (k v : bytes) : args := setArg a k v argsHasValue.
 Definition SetNoValue (a : args) (k : bytes) : args := setArg a k [] argsNoValue.
 Definition Del (a : args) (k : bytes) : args := delAllArgsStable a k.
+
+(* ---------------- CopyTo ---------------- *)
+
+(* the body of copyArgs' loop: dstKV keeps its buffers, every field is overwritten *)
+Definition copyKV (dstKV srcKV : argsKV) : argsKV :=
+  let dstKV := mkKV (kv_key srcKV) (kv_value dstKV) (kv_noValue dstKV) in          (* dstKV.key = append(dstKV.key[:0], srcKV.key...) *)
+  let dstKV := if kv_noValue srcKV
+               then mkKV (kv_key dstKV) [] (kv_noValue dstKV)                       (* dstKV.value = dstKV.value[:0] *)
+               else mkKV (kv_key dstKV) (kv_value srcKV) (kv_noValue dstKV) in      (* append(dstKV.value[:0], srcKV.value...) *)
+  mkKV (kv_key dstKV) (kv_value dstKV) (kv_noValue srcKV).                         (* dstKV.noValue = srcKV.noValue *)
+
+(* for i := range n: `slots` = dst[i:cap], `src` = src[i:]; returns dst[:n] and the slots left beyond n *)
+Fixpoint copy_loop (slots src : list argsKV) : list argsKV * list argsKV :=
+  match src with
+  | [] => ([], slots)
+  | s :: sr =>
+      let '(d, rest) := match slots with d :: rest => (d, rest) | [] => (zeroKV, []) (* unreachable: padded below *) end in
+      let '(c, sp) := copy_loop rest sr in
+      (copyKV d s :: c, sp)
+  end.
+
+(* func copyArgs(dst, src []argsKV) []argsKV *)
+Definition copyArgs (dst : args) (src : list argsKV) : args :=
+  let slots := live dst ++ spare dst in                                            (* dst[:cap(dst)] *)
+  let slots := if Nat.ltb (length slots) (length src)                              (* cap(dst) < len(src): tmp, old slots copied, rest empty *)
+               then slots ++ repeat zeroKV (length src - length slots)
+               else slots in
+  let '(c, sp) := copy_loop slots src in
+  mkArgs c sp.
+
+(* func (a *Args) CopyTo(dst *Args) — returns the new dst *)
+Definition CopyTo (a dst : args) : args := copyArgs dst (live a).
 
 (* ---------------- serialisation ---------------- *)
 
